@@ -3,49 +3,49 @@
 // (appends this test to the harness module in a scratch overlay of /repo and runs `cargo kani playback`).
 /// Test generated for harness `xls::k_c02_xls::c02_q_mulrk_n2` 
 ///
-/// Check for `assertion`: "attempt to add with overflow"
+/// Check for `assertion`: ""MULRK entry value""
 
 #[test]
-fn kani_concrete_playback_c02_q_mulrk_n2_6043178406057822244() {
+fn kani_concrete_playback_c02_q_mulrk_n2_6005169835165043609() {
     let concrete_vals: Vec<Vec<u8>> = vec![
-        // 0
-        vec![0],
-        // 0
-        vec![0],
-        // 0
-        vec![0],
-        // 0
-        vec![0],
-        // 3
-        vec![3],
-        // 0
-        vec![0],
+        // 255
+        vec![255],
+        // 255
+        vec![255],
         // 254
         vec![254],
-        // 255
-        vec![255],
-        // 255
-        vec![255],
-        // 255
-        vec![255],
-        // 3
-        vec![3],
         // 0
         vec![0],
-        // 254
-        vec![254],
         // 255
         vec![255],
         // 255
         vec![255],
+        // 106
+        vec![106],
+        // 155
+        vec![155],
+        // 255
+        vec![255],
+        // 99
+        vec![99],
         // 255
         vec![255],
         // 255
         vec![255],
+        // 246
+        vec![246],
+        // 12
+        vec![12],
+        // 0
+        vec![0],
+        // 206
+        vec![206],
         // 255
         vec![255],
         // 0
         vec![0],
+        // 1
+        vec![1],
         // 2
         vec![2],
         // 2
@@ -61,7 +61,7 @@ fn kani_concrete_playback_c02_q_mulrk_n2_6043178406057822244() {
 /// Check for `cover`: "end"
 
 #[test]
-fn kani_concrete_playback_c02_q_mulrk_n2_5589750415400818377() {
+fn kani_concrete_playback_c02_q_mulrk_n2_3470484308011642556() {
     let concrete_vals: Vec<Vec<u8>> = vec![
         // 255
         vec![255],
@@ -69,40 +69,40 @@ fn kani_concrete_playback_c02_q_mulrk_n2_5589750415400818377() {
         vec![255],
         // 254
         vec![254],
-        // 239
-        vec![239],
-        // 3
-        vec![3],
-        // 0
-        vec![0],
-        // 2
-        vec![2],
-        // 16
-        vec![16],
-        // 6
-        vec![6],
-        // 0
-        vec![0],
-        // 2
-        vec![2],
-        // 0
-        vec![0],
-        // 250
-        vec![250],
-        // 1
-        vec![1],
-        // 0
-        vec![0],
         // 0
         vec![0],
         // 255
         vec![255],
-        // 239
-        vec![239],
+        // 255
+        vec![255],
+        // 2
+        vec![2],
+        // 128
+        vec![128],
+        // 241
+        vec![241],
+        // 127
+        vec![127],
+        // 255
+        vec![255],
+        // 255
+        vec![255],
+        // 170
+        vec![170],
+        // 245
+        vec![245],
+        // 255
+        vec![255],
+        // 38
+        vec![38],
+        // 255
+        vec![255],
         // 0
         vec![0],
         // 1
         vec![1],
+        // 2
+        vec![2],
         // 2
         vec![2],
         // 2
